@@ -146,6 +146,8 @@ type c06Case struct {
 	ExpectOK bool              `json:"expect_ok"`
 	Blame    []string          `json:"blame,omitempty"` // acceptable diagnostic anchors: "lox:<line>" or "go:<line>"
 	Checks   int               `json:"checks"`          // number of value-flow checks the program performs when run
+	// VerdictOnly: the case belongs to the binding matrix: verdict and diagnostics are checked, an acceptance is not compiled
+	VerdictOnly bool `json:"verdict_only,omitempty"`
 	Extra    map[string]string `json:"-"`
 }
 
@@ -488,6 +490,9 @@ func c06Batch(tag string, cases []*c06Case, st *mc.Stats, mu *sync.Mutex) []mc.V
 			}
 			continue
 		}
+		if cs.VerdictOnly {
+			continue
+		}
 		jobs = append(jobs, job{cs, pkg})
 		pkgs = append(pkgs, st3.Pkg{Name: pkg, Files: map[string]string{"user.go": user, "base.gen.go": res.Base, "lexer.gen.go": res.Lexer, "parser.gen.go": res.Parser}})
 	}
@@ -626,8 +631,115 @@ func tailOf(user string) string {
 	return user
 }
 
+// c06Matrix: the binding space of one rule. Productions of s are a non-empty
+// subset (at most 3) of {A, c, A B, c B, B c} (c = C has result type S), its
+// methods a non-empty subset (at most 3) of ten signatures over {Token, S, any,
+// int}; all return int. The expected verdict is computed from the statement:
+// every production has exactly one method of its length whose parameters accept
+// its terms, and every method serves at least one production. A refusal must
+// name an offending production or method.
+func c06Matrix() []*c06Case {
+	type prod struct {
+		text  string
+		terms []string // "Token" / "S"
+	}
+	prods := []prod{{"A", []string{"Token"}}, {"c", []string{"S"}}, {"A B", []string{"Token", "Token"}}, {"c B", []string{"S", "Token"}}, {"B c", []string{"Token", "S"}}}
+	meths := [][]string{{"Token"}, {"S"}, {"any"}, {"Token", "Token"}, {"S", "Token"}, {"any", "Token"}, {"any", "any"}, {"Token", "S"}, {"int"}, {"Token", "int"}}
+	accepts := func(param, term string) bool { return param == term || param == "any" }
+	subsets := func(n, max int) [][]int {
+		var out [][]int
+		for m := 1; m < 1<<n; m++ {
+			var s []int
+			for i := 0; i < n; i++ {
+				if m&(1<<i) != 0 {
+					s = append(s, i)
+				}
+			}
+			if len(s) <= max {
+				out = append(out, s)
+			}
+		}
+		return out
+	}
+	var out []*c06Case
+	for _, ps := range subsets(len(prods), 3) {
+		for _, ms := range subsets(len(meths), 3) {
+			var lox strings.Builder
+			lox.WriteString(c06LoxHead + "@start s = ")
+			for i, pi := range ps {
+				if i > 0 {
+					lox.WriteString("\n  | ")
+				}
+				lox.WriteString(prods[pi].text)
+			}
+			lox.WriteString("\nc = C\n")
+			var user strings.Builder
+			user.WriteString("package PKG\n\ntype Token struct{ Type, Idx int }\n\ntype S struct{ V int }\n\ntype parser struct {\n\tlox\n}\n\nfunc (p *parser) on_c(_ Token) S { return S{} }\n")
+			for _, mi := range ms {
+				fmt.Fprintf(&user, "func (p *parser) on_s__m%d(", mi)
+				for k, t := range meths[mi] {
+					if k > 0 {
+						user.WriteString(", ")
+					}
+					fmt.Fprintf(&user, "x%d %s", k, t)
+				}
+				user.WriteString(") int { return 0 }\n")
+			}
+			cs := &c06Case{Name: fmt.Sprintf("matrix/prods%v-methods%v", ps, ms), Lox: lox.String(), User: user.String(), ExpectOK: true, VerdictOnly: true}
+			used := map[int]bool{}
+			for _, pi := range ps {
+				var match []int
+				for _, mi := range ms {
+					if len(meths[mi]) != len(prods[pi].terms) {
+						continue
+					}
+					ok := true
+					for k := range meths[mi] {
+						ok = ok && accepts(meths[mi][k], prods[pi].terms[k])
+					}
+					if ok {
+						match = append(match, mi)
+					}
+				}
+				if len(match) != 1 {
+					cs.ExpectOK = false
+					needle := "@start s = " + prods[pi].text + "\n"
+					if pi != ps[0] {
+						needle = "  | " + prods[pi].text + "\n"
+					}
+					cs.Blame = append(cs.Blame, fmt.Sprintf("lox:%d", lineOf(cs.Lox, needle)))
+					for _, mi := range match {
+						cs.Blame = append(cs.Blame, fmt.Sprintf("go:%d", lineOf(cs.User, fmt.Sprintf("on_s__m%d(", mi))))
+					}
+				}
+				for _, mi := range match {
+					used[mi] = true
+				}
+			}
+			for _, mi := range ms {
+				if !used[mi] {
+					cs.ExpectOK = false
+					cs.Blame = append(cs.Blame, fmt.Sprintf("go:%d", lineOf(cs.User, fmt.Sprintf("on_s__m%d(", mi))))
+				}
+			}
+			out = append(out, cs)
+		}
+	}
+	return out
+}
+
 func c06Worker(c *mc.Ctx) {
 	cases := c06Cases(c.Quick())
+	matrix := c06Matrix()
+	nok := 0
+	for _, cs := range matrix {
+		if cs.ExpectOK {
+			nok++
+		}
+	}
+	c.Stats.Add("binding_matrix_cases", int64(len(matrix)))
+	c.Stats.Add("binding_matrix_cases_expected_ok", int64(nok))
+	cases = append(cases, matrix...)
 	// cross-check the hand-written assignability table against go/types
 	for _, t := range c06Types {
 		if t.sentinel == "" {
@@ -694,7 +806,7 @@ func init() {
 	mc.Register(&mc.Check{
 		ID:    "C06",
 		Level: "exploration",
-		Rule: "bindings: (a) the full matrix result-type T x parameter-type P over {named struct, pointer, unnamed/named slice, unnamed/named map, unnamed/named func, generic instantiation, imported time.Duration and *strings.Builder, bidirectional/receive-only channel, int/named int, implemented and unimplemented interfaces, any, fmt.Stringer} on a plain rule term and on an optional term; (b) list terms (x*, x+, @list, @list?) with identical / named-slice / any / wrong parameter for every T; (c) token and @error terms; (d) layouts: exact, shared method, interface parameter, suffix methods, production without method, rule without methods, two matching methods, orphans, unequal returns, unknown rule, wrong arity, zero/two results; " +
+		Rule: "bindings: (a) the full matrix result-type T x parameter-type P over {named struct, pointer, unnamed/named slice, unnamed/named map, unnamed/named func, generic instantiation, imported time.Duration and *strings.Builder, bidirectional/receive-only channel, int/named int, implemented and unimplemented interfaces, any, fmt.Stringer} on a plain rule term and on an optional term; (b) list terms (x*, x+, @list, @list?) with identical / named-slice / any / wrong parameter for every T; (c) token and @error terms; (d) the binding matrix of one rule: productions = every subset of at most 3 of {A, c, A B, c B, B c}, methods = every subset of at most 3 of ten signatures over {Token, S, any, int}, expected verdict computed from the statement (exactly one accepting method per production, no method left over), refusals must name an offending production or method (verdict only, not compiled); (e) layouts: exact, shared method, interface parameter, suffix methods, production without method, rule without methods, two matching methods, orphans, unequal returns, unknown rule, wrong arity, zero/two results; " +
 			"verdict must equal the expected one (expected assignability written from the Go spec and cross-checked against go/types), every refusal must name the production or the method, every acceptance is compiled by the real toolchain together with the unmodified generated files and run: each action parameter must hold exactly the sentinel produced for its term; non-trivial = one binding case",
 		Assume: []string{"expected assignability table in cmd/loxmc/c06.go (cross-checked against go/types on every run)", "fast ParseGo (go/types in process with a source importer) stands in for packages.Load; bound by the conformance runs of the real binary in C12/C13/C14"},
 		Worker: c06Worker,
